@@ -464,6 +464,8 @@ def run(prog, rep, tier):
     R54 = rep.rule("R5.4", "readers that revisit earlier offsets keep all blocks of a streamed file")
     fr = prog.body("s4lib::readers::fixedstructreader::FixedStructReader::new")
     pre = [c for c in fr.live_calls() if c.d.endswith("FixedStructReader::preprocess_timevalues")]
+    # every pass over the file made by new(): layout scoring reads blocks too
+    passes = [c for c in fr.live_calls() if c.d.startswith("s4lib::readers::fixedstructreader::FixedStructReader::preprocess_") or c.d.endswith("FixedStructReader::score_file")]
     dis = [c for c in fr.live_calls() if c.d.endswith("BlockReader::disable_drop_data")]
     stc = [c for c in fr.live_calls() if c.d.endswith("BlockReader::is_streamed_file")]
     if len(pre) != 1:
@@ -476,12 +478,27 @@ def run(prog, rep, tier):
         if t[0] == "switch" and op_local(t[1]) == c.dest[0]:
             arms = {int(v): tb for v, tb in t[2]}
             true_t = t[3] if 0 in arms else arms.get(1)
-            if true_t is not None and dis and pre[0].bb not in fr.reachable(true_t, set(d.bb for d in dis)) and fr.dominates(c.bb, pre[0].bb):
+            if true_t is not None and dis and not any(p_.bb in fr.reachable(true_t, set(d.bb for d in dis)) for p_ in passes) and all(fr.dominates(c.bb, p_.bb) for p_ in passes):
                 ok = True
     # the entry walk is in time order (C08 R8.2): that is what makes earlier blocks needed again
-    rep.examined(R54, fr.path + "|keep-blocks", sample={"is_streamed_tests": len(stc), "disable_drop_data_calls": len(dis), "all_blocks_kept_when_streamed": ok})
+    rep.examined(R54, fr.path + "|keep-blocks", sample={"passes_over_the_file": [p_.d.split("::")[-1] for p_ in passes], "is_streamed_tests": len(stc), "disable_drop_data_calls": len(dis), "all_blocks_kept_when_streamed": ok})
     if not ok:
         rep.violation(R54, fr.path + "|keep-blocks", "FixedStructReader::new: records are visited in time order after a full forward scan, but for a streamed (compressed) file the blocks dropped during that scan cannot be read again; dropping is not disabled when is_streamed_file() (a multi-block .gz/.bz2/.lz4 accounting file then prints only the records of its last block)")
+
+    # ------------------------------------------------------------ R5.6 (lifted from C11 R11.2): the time stored in the container
+    R56 = rep.rule("R5.6", "container-stored modification time is used (lifted from C11 R11.2)")
+    import contextlib as _cl, io as _io
+    import c11 as _c11
+    from common import Report as _Rep
+    _sub = _Rep("C11", "quick", dict(rep.meta))
+    _sub.finish = lambda *a, **k: 0
+    with _cl.redirect_stdout(_io.StringIO()):
+        _c11.run(prog, _sub, "quick")
+    for (rid_, key_, what_, det_) in _sub.violations:
+        if rid_ == "R11.2":
+            rep.violation(R56, key_.split("|", 1)[1], what_)
+    for s_ in _sub.rules.get("R11.2", {}).get("samples", []):
+        rep.examined(R56, str(s_)[:70], sample=s_)
 
     # ------------------------------------------------------------ R5.3
     sites = [("s4lib::readers::evtxreader::EvtxReader::new", ("OpenOptions::open", "from_path")),
